@@ -10,6 +10,13 @@ Proof.
   - apply Qnot_le_lt. intro H. apply Qle_bool_iff in H. congruence.
 Qed.
 
+Lemma Qltb_compat x x' y : x == x' -> Qltb x y = Qltb x' y.
+Proof.
+  intros E. destruct (Qltb_spec x y) as [H|H]; destruct (Qltb_spec x' y) as [H'|H']; try reflexivity; exfalso.
+  - apply H'. rewrite <- E. exact H.
+  - apply H. rewrite E. exact H'.
+Qed.
+
 Lemma Qltb_mono t (d1 d2 : Z) : (d1 <= d2)%Z -> Qltb t (inject_Z d1) = true -> Qltb t (inject_Z d2) = true.
 Proof.
   intros Hd H. destruct (Qltb_spec t (inject_Z d1)) as [H1|]; [|discriminate].
@@ -33,17 +40,78 @@ Proof.
 Qed.
 
 Lemma fix_dates_documented : fix_dates = [1549843200; 1551571200; 1552608000]%Z
-  /\ fix_cmc2_marker = "cbf_dev"%string /\ fix_cbf4k_marker = "c856M4k"%string.
+  /\ fix_cmc2_marker = "cbf_dev"%string /\ fix_cbf4k_marker = "c856M4k"%string
+  /\ fix_cmc2_attr = "sub_pool_resources"%string /\ fix_cbf4k_attr = "sub_product"%string.
 Proof. repeat split; reflexivity. Qed.
 
-Lemma needs_fix_0 tm : needs_fix tm 0 = spec_needs_fix tm.
-Proof. unfold needs_fix, spec_needs_fix. apply fix_rule_table. Qed.
+(* ---------------- the data source ---------------- *)
+(* datasources.py synthesises sync_time + first_timestamp + k * int_time *)
+Lemma synth_closed tm k : synth tm k == t_sync tm + t_first tm + inject_Z k * t_int tm.
+Proof. unfold synth, q_ds_timestamp, gen_ds_timestamp, q_ds_t0, gen_ds_t0. ring. Qed.
+
+(* whatever dumps are preselected, the source keeps dumps a.. and remembers the first timestamp of the CAPTURE *)
+Lemma run_ds_closed tm a : run_ds tm a = mkD a (Some (synth tm 0)) (Some a) (Some (synth tm 0)).
+Proof. reflexivity. Qed.
+Lemma src_base_closed tm a : src_base tm a = a.
+Proof. reflexivity. Qed.
+Lemma capture_start_ignores_preselect tm a :
+  d_src_cap (run_ds tm a) = Some (synth tm 0) /\ d_src_cap (run_ds tm a) = d_src_cap (run_ds tm 0).
+Proof. split; reflexivity. Qed.
+
+(* ---------------- VisibilityDataV4.__init__ ---------------- *)
+Definition spec_fix (tm : timing) : option Q :=
+  match t_cbf tm with Some p => if spec_needs_fix tm then Some p else None | None => None end.
+
+Lemma v_fix_spec tm c : c == raw_stamp tm 0 -> v_fix tm (Some c) = spec_fix tm.
+Proof.
+  intros E. unfold v_fix, spec_fix, spec_needs_fix. destruct (t_cbf tm); [|reflexivity].
+  rewrite fix_rule_table. rewrite (Qltb_compat _ _ _ E). reflexivity.
+Qed.
+
+Lemma spec_fix_amount_fix tm :
+  spec_fix_amount tm == match spec_fix tm with Some p => p | None => 0 end.
+Proof.
+  unfold spec_fix_amount, spec_fix. destruct (t_cbf tm); destruct (spec_needs_fix tm); reflexivity.
+Qed.
+
+Lemma half_dump_closed x : q_half_dump x == (1#2) * x.
+Proof. unfold q_half_dump, gen_v4_half_dump. field. Qed.
+
+Ltac v4_exec E :=
+  repeat (cbn [fold_left v_step fst snd v_shift v_off v_cap v_start v_end]; try rewrite E).
+
+(* symbolic execution of the time statements of __init__, in their source order *)
+Lemma run_v4_closed tm a n :
+  v_shift (run_v4 tm a n) == t_off tm - spec_fix_amount tm /\
+  v_off (run_v4 tm a n) == t_off tm - spec_fix_amount tm /\
+  (exists s, v_start (run_v4 tm a n) = Some s /\
+             s == synth tm a + (t_off tm - spec_fix_amount tm) - (1#2) * t_int tm) /\
+  (exists e, v_end (run_v4 tm a n) = Some e /\
+             e == synth tm (a + n - 1) + (t_off tm - spec_fix_amount tm) + (1#2) * t_int tm).
+Proof.
+  unfold run_v4. rewrite ?src_base_closed, ?run_ds_closed. cbn [d_src_cap]. unfold gen_v4_time_prog.
+  assert (C : synth tm 0 + inject_Z 1 * t_off tm == raw_stamp tm 0)
+    by (rewrite synth_closed; unfold raw_stamp, inject_Z; ring).
+  pose proof (v_fix_spec tm _ C) as E.
+  pose proof (spec_fix_amount_fix tm) as F.
+  destruct (spec_fix tm) as [p|]; v4_exec E;
+    (split; [rewrite F; unfold inject_Z; ring|]); (split; [rewrite F; unfold inject_Z; ring|]);
+    (split; eexists; (split; [reflexivity|]));
+    rewrite half_dump_closed, F; unfold inject_Z; ring.
+Qed.
+
+Lemma raw_stamp_synth tm k : raw_stamp tm k == synth tm k + t_off tm.
+Proof. rewrite synth_closed. unfold raw_stamp. ring. Qed.
+
+(* timestamps of a data set opened with preselect dumps = a:...; a = 0 is the whole data set *)
+Lemma preselect_timestamp tm a i : model_timestamp tm a i == spec_timestamp tm (a + i).
+Proof.
+  unfold model_timestamp, spec_timestamp. rewrite src_base_closed.
+  destruct (run_v4_closed tm a 1) as (S & _). rewrite S, raw_stamp_synth. ring.
+Qed.
 
 Lemma timestamp_formula tm i : model_timestamp tm 0 i == spec_timestamp tm i.
-Proof.
-  unfold model_timestamp, spec_timestamp, fix_amount. rewrite needs_fix_0.
-  replace (0 + i)%Z with i by lia. reflexivity.
-Qed.
+Proof. rewrite preselect_timestamp. replace (0 + i)%Z with i by lia. reflexivity. Qed.
 
 Lemma timestamp_closed_form tm i :
   spec_timestamp tm i ==
@@ -51,35 +119,33 @@ Lemma timestamp_closed_form tm i :
   - (if Qltb (t_sync tm + t_first tm + t_off tm) (inject_Z (doc_fix_date (t_cmc2 tm) (t_cbf4k tm)))
      then match t_cbf tm with Some c => c | None => 0 end else 0).
 Proof.
-  unfold spec_timestamp, spec_needs_fix, raw_stamp.
-  assert (E : t_sync tm + t_first tm + inject_Z 0 * t_int tm + t_off tm == t_sync tm + t_first tm + t_off tm)
-    by (unfold inject_Z; ring).
-  assert (B : Qltb (t_sync tm + t_first tm + inject_Z 0 * t_int tm + t_off tm)
-                   (inject_Z (doc_fix_date (t_cmc2 tm) (t_cbf4k tm)))
-            = Qltb (t_sync tm + t_first tm + t_off tm) (inject_Z (doc_fix_date (t_cmc2 tm) (t_cbf4k tm)))).
-  { destruct (Qltb_spec (t_sync tm + t_first tm + inject_Z 0 * t_int tm + t_off tm)
-                        (inject_Z (doc_fix_date (t_cmc2 tm) (t_cbf4k tm)))) as [H|H];
-    destruct (Qltb_spec (t_sync tm + t_first tm + t_off tm)
-                        (inject_Z (doc_fix_date (t_cmc2 tm) (t_cbf4k tm)))) as [H'|H']; try reflexivity;
-    exfalso; rewrite E in H; contradiction. }
-  rewrite B. reflexivity.
+  unfold spec_timestamp, spec_fix_amount, spec_needs_fix.
+  assert (E : raw_stamp tm 0 == t_sync tm + t_first tm + t_off tm) by (unfold raw_stamp, inject_Z; ring).
+  rewrite (Qltb_compat _ _ _ E). unfold raw_stamp. reflexivity.
 Qed.
 
-Lemma start_end_bracket tm n :
-  model_start_time tm 0 == spec_timestamp tm 0 - (1#2) * t_int tm /\
-  model_end_time tm 0 n == spec_timestamp tm (n - 1) + (1#2) * t_int tm.
+(* start and end of a data set of n dumps opened with preselect dumps = a:a+n *)
+Lemma start_end_bracket tm a n :
+  model_start_time tm a n == spec_timestamp tm a - (1#2) * t_int tm /\
+  model_end_time tm a n == spec_timestamp tm (a + n - 1) + (1#2) * t_int tm.
 Proof.
-  unfold model_start_time, model_end_time. rewrite !timestamp_formula. split; reflexivity.
+  unfold model_start_time, model_end_time, spec_timestamp.
+  destruct (run_v4_closed tm a n) as (_ & _ & (s & Es & Hs) & (e & Ee & He)).
+  rewrite Es, Ee. cbn [optQ]. rewrite Hs, He, !raw_stamp_synth. split; ring.
 Qed.
 
-(* preselected data set: the fix decision no longer depends on the preselected range *)
-Lemma needs_fix_any tm a : needs_fix tm a = needs_fix tm 0.
-Proof. reflexivity. Qed.
-
-Lemma preselect_timestamp tm a i : model_timestamp tm a i == spec_timestamp tm (a + i).
+(* ... so they bracket the model's own first and last dump by half a dump *)
+Lemma start_end_bracket_model tm a n :
+  model_start_time tm a n == model_timestamp tm a 0 - (1#2) * t_int tm /\
+  model_end_time tm a n == model_timestamp tm a (n - 1) + (1#2) * t_int tm.
 Proof.
-  unfold model_timestamp, spec_timestamp, fix_amount. rewrite needs_fix_any, needs_fix_0. reflexivity.
+  destruct (start_end_bracket tm a n) as (S & E). rewrite S, E, !preselect_timestamp.
+  replace (a + 0)%Z with a by lia. replace (a + (n - 1))%Z with (a + n - 1)%Z by lia. split; reflexivity.
 Qed.
+
+(* the workaround is recorded in the time_offset attribute *)
+Lemma time_offset_records tm a : model_time_offset tm a == t_off tm - spec_fix_amount tm.
+Proof. unfold model_time_offset. destruct (run_v4_closed tm a 1) as (_ & O & _). exact O. Qed.
 
 (* before the repair the statement was false: a capture that straddles a fix date *)
 Definition straddle : timing :=
@@ -93,26 +159,72 @@ Proof. exists straddle, 1%Z, 0%Z. split; [vm_compute; discriminate|apply presele
 Lemma inject_Z_nonzero n : (n <> 0)%Z -> ~ inject_Z n == 0.
 Proof. intros H E. apply H. unfold Qeq, inject_Z in E. simpl in E. lia. Qed.
 
+(* the channel_width attribute stored by __init__ is bandwidth / num_chans on both of its paths *)
+Lemma init_width_consistent c cw n sd bw : (n <> 0)%Z ->
+  init_width_attr (c, cw, n, sd, bw) == chan_width (spw_init (c, cw, n, sd, bw)).
+Proof.
+  intros Hn. pose proof (inject_Z_nonzero n Hn).
+  unfold init_width_attr, chan_width, spw_init. destruct bw; cbn [s_bw s_n].
+  - unfold q_init_width, gen_spw_init_width. reflexivity.
+  - unfold q_init_bandwidth, gen_spw_init_bandwidth. field. assumption.
+Qed.
+
+Lemma chan_freq_closed w k : (s_n w <> 0)%Z ->
+  chan_freq w k == spec_chan_freq (s_centre w) (s_bw w) (s_n w) (s_side w) k.
+Proof.
+  intros Hn. pose proof (inject_Z_nonzero _ Hn).
+  unfold chan_freq, q_channel_freq, gen_spw_channel_freq, spec_chan_freq. field. assumption.
+Qed.
+
 Lemma channel_formula c bw n k : (0 < n)%Z ->
   chan_freq (mkSpw c bw n 1) k == c + inject_Z (k - n / 2) * bw / inject_Z n.
 Proof.
-  intros Hn. unfold chan_freq; simpl. field. try (apply inject_Z_nonzero; lia).
+  intros Hn. rewrite chan_freq_closed by (cbn [s_n]; lia). unfold spec_chan_freq; cbn [s_centre s_bw s_n s_side].
+  field. apply inject_Z_nonzero; lia.
 Qed.
+
+(* the window VisibilityDataV4 builds from the telstate attributes *)
+Lemma v4_spw_closed c bw n : (0 < n)%Z ->
+  s_centre (v4_spw c bw n) = c /\ s_bw (v4_spw c bw n) == bw /\ s_n (v4_spw c bw n) = n /\ s_side (v4_spw c bw n) = 1%Z.
+Proof.
+  intros Hn. unfold v4_spw, spw_init. cbn [s_centre s_bw s_n s_side]. repeat split; try reflexivity.
+  unfold q_init_bandwidth, gen_spw_init_bandwidth, q_v4_channel_width, gen_v4_channel_width. field.
+  apply inject_Z_nonzero; lia.
+Qed.
+
+Lemma v4_channel_formula c bw n k : (0 < n)%Z ->
+  chan_freq (v4_spw c bw n) k == c + inject_Z (k - n / 2) * bw / inject_Z n /\
+  chan_width (v4_spw c bw n) == bw / inject_Z n.
+Proof.
+  intros Hn. destruct (v4_spw_closed c bw n Hn) as (C & B & N & S).
+  assert (NN : ~ inject_Z n == 0) by (apply inject_Z_nonzero; lia).
+  split.
+  - rewrite chan_freq_closed by lia. unfold spec_chan_freq. rewrite C, B, N, S. field. exact NN.
+  - unfold chan_width. rewrite B, N. reflexivity.
+Qed.
+
+Lemma v4_freq_attrs_documented :
+  gen_v4_freq_attrs = [("num_chans", "n_chans"); ("bandwidth", "bandwidth"); ("centre_freq", "center_freq")]%string
+  /\ gen_v4_sideband = 1%Z.
+Proof. split; reflexivity. Qed.
 
 Lemma subrange_some w f l w' : subrange w f l = Some w' ->
   (0 <= f)%Z /\ (f < l)%Z /\ (l <= s_n w)%Z /\
-  w' = mkSpw (s_centre w + inject_Z ((f + l) / 2 - s_n w / 2) * s_bw w * inject_Z (s_side w) / inject_Z (s_n w))
-             (s_bw w * inject_Z (l - f) / inject_Z (s_n w)) (l - f) (s_side w).
+  s_centre w' == s_centre w + inject_Z ((f + l) / 2 - s_n w / 2) * s_bw w * inject_Z (s_side w) / inject_Z (s_n w) /\
+  s_bw w' == s_bw w * inject_Z (l - f) / inject_Z (s_n w) /\ s_n w' = (l - f)%Z /\ s_side w' = s_side w.
 Proof.
-  unfold subrange. destruct (0 <=? f)%Z eqn:A; destruct (f <? l)%Z eqn:B; destruct (l <=? s_n w)%Z eqn:C;
-    simpl; intros H; try discriminate. injection H as <-.
-  repeat split; lia.
+  unfold subrange, q_subrange, gen_spw_subrange.
+  destruct (0 <=? f)%Z eqn:A; destruct (f <? l)%Z eqn:B; destruct (l <=? s_n w)%Z eqn:C;
+    cbn [negb andb option_map]; intros H; try discriminate. injection H as <-.
+  unfold spw_init. cbn [s_centre s_bw s_n s_side].
+  repeat split; try lia; reflexivity.
 Qed.
 
 Lemma subrange_none w f l : subrange w f l = None <-> ~ ((0 <= f)%Z /\ (f < l)%Z /\ (l <= s_n w)%Z).
 Proof.
-  unfold subrange. destruct (0 <=? f)%Z eqn:A; destruct (f <? l)%Z eqn:B; destruct (l <=? s_n w)%Z eqn:C;
-    simpl; split; intros H; try discriminate; try reflexivity; try lia;
+  unfold subrange, q_subrange, gen_spw_subrange.
+  destruct (0 <=? f)%Z eqn:A; destruct (f <? l)%Z eqn:B; destruct (l <=? s_n w)%Z eqn:C;
+    cbn [negb andb option_map]; split; intros H; try discriminate; try reflexivity; try lia;
   exfalso; apply H; lia.
 Qed.
 
@@ -127,18 +239,37 @@ Qed.
 Lemma subrange_aligned w f l w' j : subrange w f l = Some w' ->
   chan_freq w' j == chan_freq w (f + j).
 Proof.
-  intros H. destruct (subrange_some _ _ _ _ H) as (H0 & H1 & H2 & ->).
-  unfold chan_freq; simpl.
+  intros H. destruct (subrange_some _ _ _ _ H) as (H0 & H1 & H2 & C & B & N & S).
+  assert (NN : ~ inject_Z (s_n w) == 0) by (apply inject_Z_nonzero; lia).
+  assert (NL : ~ inject_Z (l - f) == 0) by (apply inject_Z_nonzero; lia).
+  rewrite !chan_freq_closed by lia. unfold spec_chan_freq. rewrite C, B, N, S.
   assert (E : (f + j - s_n w / 2 = ((f + l) / 2 - s_n w / 2) + (j - (l - f) / 2))%Z)
     by (pose proof (half_diff f l); lia).
   rewrite E, inject_Z_plus.
-  field. split; apply inject_Z_nonzero; lia.
+  field. split; assumption.
 Qed.
 
 Lemma subrange_width w f l w' : subrange w f l = Some w' -> chan_width w' == chan_width w.
 Proof.
-  intros H. destruct (subrange_some _ _ _ _ H) as (H0 & H1 & H2 & ->).
-  unfold chan_width; simpl. field. split; apply inject_Z_nonzero; lia.
+  intros H. destruct (subrange_some _ _ _ _ H) as (H0 & H1 & H2 & C & B & N & S).
+  unfold chan_width. rewrite B, N. field. split; apply inject_Z_nonzero; lia.
+Qed.
+
+(* ... hence identical channel edges, and the band edges of the sub-range are the outer edges of channels
+   first and last-1 of the original *)
+Lemma subrange_edges w f l w' : subrange w f l = Some w' ->
+  (forall j, chan_lo w' j == chan_lo w (f + j)) /\
+  band_lo w' == chan_lo w f /\
+  band_hi w' == chan_freq w (l - 1) + inject_Z (s_side w) * (1#2) * chan_width w.
+Proof.
+  intros H. destruct (subrange_some _ _ _ _ H) as (H0 & H1 & H2 & C & B & N & S).
+  pose proof (subrange_width _ _ _ _ H) as W.
+  assert (L : forall j, chan_lo w' j == chan_lo w (f + j)).
+  { intros j. unfold chan_lo. rewrite (subrange_aligned _ _ _ _ j H), W, S. reflexivity. }
+  split; [exact L|]. split.
+  - unfold band_lo. rewrite L. replace (f + 0)%Z with f by lia. reflexivity.
+  - unfold band_hi. rewrite (subrange_aligned _ _ _ _ _ H), W, S, N.
+    replace (f + (l - f - 1))%Z with (l - 1)%Z by lia. reflexivity.
 Qed.
 
 Lemma parity_cases n : (n mod 2 = 0 /\ n = 2 * (n / 2))%Z \/ (n mod 2 = 1 /\ n = 2 * (n / 2) + 1)%Z.
@@ -147,7 +278,9 @@ Proof.
 Qed.
 
 Lemma rechannelise_same w : rechannelise w (s_n w) = w.
-Proof. unfold rechannelise. rewrite Z.eqb_refl. reflexivity. Qed.
+Proof.
+  unfold rechannelise, q_rechannelise, gen_spw_rechannelise. rewrite Z.eqb_refl. destruct w; reflexivity.
+Qed.
 
 (* centre of the whole band (centre_freq is the centre of the MIDDLE CHANNEL, which for an even channel
    count lies half a channel above the band centre) *)
@@ -167,34 +300,53 @@ Proof.
   rewrite E. field.
 Qed.
 
+(* lower edge of channel k = lower band edge + k channel widths *)
+Lemma chan_lo_closed w k : (0 < s_n w)%Z ->
+  chan_lo w k == band_centre w - inject_Z (s_side w) * (1#2) * s_bw w
+                 + inject_Z (s_side w) * inject_Z k * s_bw w / inject_Z (s_n w).
+Proof.
+  intros Hn. unfold chan_lo. rewrite chan_freq_closed by lia.
+  unfold spec_chan_freq, band_centre, chan_width.
+  set (N := s_n w) in *.
+  assert (NN : ~ inject_Z N == 0) by (apply inject_Z_nonzero; lia).
+  assert (A : inject_Z (k - N / 2) == inject_Z k - inject_Z (N / 2))
+    by (unfold Z.sub; rewrite inject_Z_plus, inject_Z_opp; reflexivity).
+  rewrite A.
+  destruct (parity_cases N) as [[PN _]|[PN _]]; rewrite PN; cbn [Z.eqb Pos.eqb].
+  - rewrite (half_even N PN). field; exact NN.
+  - rewrite (half_odd N PN). field; exact NN.
+Qed.
+
 Lemma band_edges_closed w : (0 < s_n w)%Z ->
   band_lo w == band_centre w - inject_Z (s_side w) * (1#2) * s_bw w /\
   band_hi w == band_centre w + inject_Z (s_side w) * (1#2) * s_bw w.
 Proof.
-  intros Hn. unfold band_lo, band_hi, band_centre, chan_freq, chan_width.
-  set (N := s_n w) in *.
-  assert (NN : ~ inject_Z N == 0) by (apply inject_Z_nonzero; lia).
-  assert (A : inject_Z (0 - N / 2) == - inject_Z (N / 2))
-    by (replace (0 - N / 2)%Z with (- (N / 2))%Z by lia; rewrite inject_Z_opp; reflexivity).
-  assert (B : inject_Z (N - 1 - N / 2) == inject_Z N - 1 - inject_Z (N / 2))
-    by (unfold Z.sub; rewrite !inject_Z_plus, !inject_Z_opp; reflexivity).
-  rewrite A, B.
-  destruct (parity_cases N) as [[PN _]|[PN _]]; rewrite PN; simpl Z.eqb; cbv iota.
-  - rewrite (half_even N PN). split; field; exact NN.
-  - rewrite (half_odd N PN). split; field; exact NN.
+  intros Hn.
+  assert (NN : ~ inject_Z (s_n w) == 0) by (apply inject_Z_nonzero; lia).
+  split.
+  - unfold band_lo. rewrite chan_lo_closed by exact Hn. unfold inject_Z at 3. field. exact NN.
+  - assert (E : band_hi w == chan_lo w (s_n w - 1) + inject_Z (s_side w) * chan_width w)
+      by (unfold band_hi, chan_lo; ring).
+    rewrite E, chan_lo_closed by exact Hn. unfold chan_width.
+    assert (B : inject_Z (s_n w - 1) == inject_Z (s_n w) - 1)
+      by (unfold Z.sub; rewrite inject_Z_plus; reflexivity).
+    rewrite B. field. exact NN.
 Qed.
 
 Lemma rechannelise_band_centre w m : (0 < s_n w)%Z -> (0 < m)%Z ->
-  band_centre (rechannelise w m) == band_centre w /\ s_bw (rechannelise w m) == s_bw w
+  band_centre (rechannelise w m) == band_centre w /\ s_bw (rechannelise w m) = s_bw w
   /\ s_n (rechannelise w m) = m /\ s_side (rechannelise w m) = s_side w.
 Proof.
-  intros Hn Hm. unfold rechannelise.
+  intros Hn Hm. unfold rechannelise, q_rechannelise, gen_spw_rechannelise.
   destruct (m =? s_n w)%Z eqn:E.
-  { apply Z.eqb_eq in E. subst m. repeat split; reflexivity. }
+  { apply Z.eqb_eq in E. subst m. unfold spw_init. destruct w; repeat split; reflexivity. }
   assert (NM : ~ inject_Z m == 0) by (apply inject_Z_nonzero; lia).
-  unfold band_centre at 1; simpl. fold (band_centre w).
+  unfold spw_init. cbv zeta. unfold band_centre at 1, chan_width at 1. cbn [s_centre s_bw s_n s_side].
   repeat split; try reflexivity.
-  destruct (m mod 2 =? 0)%Z; unfold chan_width; simpl; [field; exact NM|reflexivity].
+  assert (NN : ~ inject_Z (s_n w) == 0) by (apply inject_Z_nonzero; lia).
+  unfold band_centre.
+  destruct (m mod 2 =? 0)%Z; destruct (s_n w mod 2 =? 0)%Z; unfold chan_width; cbn [s_centre s_bw s_n s_side];
+    change (inject_Z 1) with 1; change (inject_Z 2) with 2; field; auto.
 Qed.
 
 (* band edges (outer edges of the first and last channel) are preserved by re-channelisation *)
@@ -209,12 +361,35 @@ Proof.
   rewrite L1, H1, L2, H2, C, Bw, Sd. split; reflexivity.
 Qed.
 
+(* the two channel grids stay aligned: wherever j/m = k/n the lower edge of new channel j is the lower edge of
+   original channel k (splitting channels: j = r*k; averaging r channels: k = r*j) *)
+Lemma rechannelise_grid w m j k : (0 < s_n w)%Z -> (0 < m)%Z -> (j * s_n w = k * m)%Z ->
+  chan_lo (rechannelise w m) j == chan_lo w k.
+Proof.
+  intros Hn Hm G.
+  destruct (rechannelise_band_centre w m Hn Hm) as (C & Bw & Nn & Sd).
+  assert (Hn' : (0 < s_n (rechannelise w m))%Z) by (rewrite Nn; exact Hm).
+  rewrite !chan_lo_closed by assumption. rewrite C, Bw, Sd, Nn.
+  assert (NM : ~ inject_Z m == 0) by (apply inject_Z_nonzero; lia).
+  assert (NN : ~ inject_Z (s_n w) == 0) by (apply inject_Z_nonzero; lia).
+  assert (E : inject_Z j * inject_Z (s_n w) == inject_Z k * inject_Z m)
+    by (rewrite <- !inject_Z_mult, G; reflexivity).
+  assert (F : inject_Z j / inject_Z m == inject_Z k / inject_Z (s_n w)).
+  { apply (Qmult_inj_r _ _ (inject_Z m * inject_Z (s_n w))).
+    - intro Z0. apply Qmult_integral in Z0. tauto.
+    - transitivity (inject_Z j * inject_Z (s_n w)); [field; exact NM|]. rewrite E. field. exact NN. }
+  transitivity (band_centre w - inject_Z (s_side w) * (1 # 2) * s_bw w
+                + inject_Z (s_side w) * s_bw w * (inject_Z j / inject_Z m)); [field; exact NM|].
+  rewrite F. field. exact NN.
+Qed.
+
 (* where the parities agree the middle-channel centre itself is preserved *)
 Lemma rechannelise_centre_odd w m : (0 < s_n w)%Z -> (0 < m)%Z ->
   (s_n w mod 2 = 1)%Z -> (m mod 2 = 1)%Z -> s_centre (rechannelise w m) == s_centre w.
 Proof.
-  intros Hn Hm PN PM. unfold rechannelise. destruct (m =? s_n w)%Z; [reflexivity|].
-  rewrite PN, PM. simpl. reflexivity.
+  intros Hn Hm PN PM. unfold rechannelise, q_rechannelise, gen_spw_rechannelise.
+  destruct (m =? s_n w)%Z; [destruct w; reflexivity|].
+  rewrite PN, PM. unfold spw_init. cbn [Z.eqb s_centre]. reflexivity.
 Qed.
 
 (* ---------------- preselection = selection ---------------- *)
@@ -244,7 +419,32 @@ Qed.
 Lemma nth_slice {A} a b (l : list A) j d : (j < b - a)%nat -> nth j (slice a b l) d = nth (a + j) l d.
 Proof. intros Hj. unfold slice. rewrite nth_firstn' by exact Hj. apply nth_skipn'. Qed.
 
-(* timestamps of the preselected set = timestamps a..b of the full set, when the fix decision agrees *)
+(* a later selection x0:x1 on a data set preselected to a:b is the selection a+x0:a+x1 on the whole *)
+Lemma skipn_firstn_comm' {A} m : forall n (l : list A), skipn m (firstn n l) = firstn (n - m) (skipn m l).
+Proof.
+  induction m as [|m IH]; intros n l; [rewrite Nat.sub_0_r; reflexivity|].
+  destruct n as [|n]; [reflexivity|]. destruct l as [|x l]; [simpl; rewrite firstn_nil; reflexivity|].
+  simpl. apply IH.
+Qed.
+Lemma skipn_skipn' {A} x : forall y (l : list A), skipn x (skipn y l) = skipn (y + x) l.
+Proof.
+  intros y. induction y as [|y IH]; intros l; [reflexivity|].
+  destruct l as [|e l]; [simpl; rewrite skipn_nil; reflexivity|]. simpl. apply IH.
+Qed.
+Lemma slice_slice {A} a b x0 x1 (l : list A) : (x1 <= b - a)%nat ->
+  slice x0 x1 (slice a b l) = slice (a + x0) (a + x1) l.
+Proof.
+  intros H. unfold slice. rewrite skipn_firstn_comm', firstn_firstn, skipn_skipn'.
+  f_equal. lia.
+Qed.
+Lemma slice2_slice2 {A} a b c d x0 x1 y0 y1 (m : list (list A)) : (x1 <= b - a)%nat -> (y1 <= d - c)%nat ->
+  slice2 x0 x1 y0 y1 (slice2 a b c d m) = slice2 (a + x0) (a + x1) (c + y0) (c + y1) m.
+Proof.
+  intros Hx Hy. unfold slice2. rewrite <- map_slice, map_map, slice_slice by exact Hx.
+  apply map_ext. intros r. apply slice_slice. exact Hy.
+Qed.
+
+(* timestamps of the preselected set = timestamps a..b of the full set *)
 Lemma preselect_timestamps tm n a b j : (a <= b <= n)%nat -> (j < b - a)%nat ->
   nth j (timestamps_pre tm a b) 0 == nth j (slice a b (timestamps_full tm n)) 0.
 Proof.
@@ -262,9 +462,8 @@ Qed.
 Lemma preselect_freqs w c d w' j : subrange w (Z.of_nat c) (Z.of_nat d) = Some w' -> (j < d - c)%nat ->
   nth j (freqs_full w') 0 == nth j (slice c d (freqs_full w)) 0.
 Proof.
-  intros H Hj. destruct (subrange_some _ _ _ _ H) as (H0 & H1 & H2 & E).
+  intros H Hj. destruct (subrange_some _ _ _ _ H) as (H0 & H1 & H2 & _ & _ & Nw' & _).
   rewrite nth_slice by exact Hj. unfold freqs_full.
-  assert (Nw' : s_n w' = (Z.of_nat d - Z.of_nat c)%Z) by (rewrite E; reflexivity).
   rewrite (nth_indep _ 0 (chan_freq w' 0%Z)) by (rewrite map_length, length_zrange; lia).
   rewrite (nth_indep _ 0 (chan_freq w 0%Z)) by (rewrite map_length, length_zrange; lia).
   rewrite !map_nth, !nth_zrange by lia.
@@ -272,7 +471,25 @@ Proof.
   replace (Z.of_nat c + (0 + Z.of_nat j))%Z with (0 + Z.of_nat (c + j))%Z by lia. reflexivity.
 Qed.
 
+(* a v4 data set preselected to channels c:d: every valid range is accepted and channel j sits at the documented
+   frequency of channel c+j of the whole data set *)
+Lemma v4_preselect_freqs centre bw n c d : (0 <= c)%Z -> (c < d)%Z -> (d <= n)%Z ->
+  exists w', subrange (v4_spw centre bw n) c d = Some w' /\ s_n w' = (d - c)%Z /\
+  forall j, chan_freq w' j == centre + inject_Z (c + j - n / 2) * bw / inject_Z n.
+Proof.
+  intros H0 H1 H2. assert (Hn : (0 < n)%Z) by lia.
+  destruct (v4_spw_closed centre bw n Hn) as (_ & _ & N & _).
+  destruct (subrange (v4_spw centre bw n) c d) as [w'|] eqn:E.
+  - exists w'. split; [reflexivity|]. destruct (subrange_some _ _ _ _ E) as (_ & _ & _ & _ & _ & Nw' & _).
+    split; [exact Nw'|]. intros j. rewrite (subrange_aligned _ _ _ _ j E).
+    destruct (v4_channel_formula centre bw n (c + j) Hn) as (F & _). exact F.
+  - exfalso. apply subrange_none in E. apply E. rewrite N. lia.
+Qed.
+
 (* preselect validation *)
+Lemma preselect_steps_documented : preselect_steps = [None; Some 1%Z] /\ preselect_keys = ["channels"; "dumps"]%string.
+Proof. split; reflexivity. Qed.
+
 Lemma preselect_rejects keys steps :
   preselect_ok keys steps = true <->
   (forall k, In k keys -> k = "channels"%string \/ k = "dumps"%string) /\
@@ -282,8 +499,9 @@ Proof.
   - intros [Hk Hs]. split.
     + intros k Hin. specialize (Hk k Hin). unfold mem_string, preselect_keys in Hk. simpl in Hk.
       rewrite orb_false_r in Hk. apply orb_true_iff in Hk. destruct Hk as [Hk|Hk]; apply String.eqb_eq in Hk; auto.
-    + intros s Hin. specialize (Hs s Hin). destruct s as [z|]; simpl in Hs; [|auto].
-      apply Z.eqb_eq in Hs. subst. auto.
+    + intros s Hin. specialize (Hs s Hin). unfold step_ok, preselect_steps in Hs. cbn [existsb] in Hs.
+      destruct s as [z|]; cbn [optZ_eqb] in Hs; [|auto].
+      rewrite orb_false_r in Hs. cbn [orb] in Hs. apply Z.eqb_eq in Hs. subst. auto.
   - intros [Hk Hs]. split.
     + intros k Hin. destruct (Hk k Hin) as [->| ->]; reflexivity.
     + intros s Hin. destruct (Hs s Hin) as [->| ->]; reflexivity.
@@ -291,5 +509,7 @@ Qed.
 
 Example nonvacuous_c17 :
   exists w', subrange (mkSpw 1284 856 8 1) 2 6 = Some w' /\ chan_freq w' 1 == chan_freq (mkSpw 1284 856 8 1) 3
-  /\ needs_fix straddle 0 = true /\ needs_fix straddle 1 = true /\ needs_fix_pre straddle 1 = false.
-Proof. eexists. split; [reflexivity|]. repeat split; vm_compute; reflexivity. Qed.
+  /\ v_fix straddle (Some (raw_stamp straddle 0)) = Some (1#2) /\ needs_fix_pre straddle 1 = false
+  /\ model_timestamp straddle 1 0 == 1552608000 + 1 - (1#2)
+  /\ ~ chan_lo (rechannelise (mkSpw 1284 856 8 1) 3) 1 == chan_lo (mkSpw 1284 856 8 1) 3.
+Proof. eexists. split; [reflexivity|]. repeat split; vm_compute; try reflexivity; discriminate. Qed.
